@@ -146,6 +146,12 @@ package jsonschema
 //@ contract detectDraft(s)
 //@   requires s != nil
 //@   pure
+//@   ensures[C02] draft: result == draftOf(s.Schema)
+
+//@ contract newResolved(s)
+//@   requires s != nil
+//@   ensures[C02] draft: result != nil && result.draft == draftOf(s.Schema) && result.root == s
+//@   ensures fresh(result) && result.resolvedURIs != nil && result.resolvedInfos != nil && fresh(result.resolvedURIs) && fresh(result.resolvedInfos)
 
 //@ contract (*Resolved).schemaString(r, s)
 //@   requires s != nil
@@ -158,11 +164,13 @@ package jsonschema
 
 //@ contract isValidSchemaVersion(version)
 //@   pure
+//@   ensures[C02] supported: result == supported(version)
 
 //@ contract (*Resolved).Validate(rs, instance)
 //@   entry
 //@   requires wfRS(rs)
 //@   requires shaped(rvof(instance))
+//@   ensures[C02] refuse: !supported(rs.root.Schema) ==> result != nil
 
 //@ contract (*state).validate(st, instance, schema, callerAnns)
 //@   requires new(st)
